@@ -2,7 +2,7 @@
 import ast
 
 from ..core import AnalysisError, src, qualname_of, enclosing_function
-from ..pysym import SymExec, show, subterms
+from ..pysym import SymExec, show, subterms, str_parts
 from ..rules_pyx import N, C, A
 from .. import codec
 
@@ -196,7 +196,7 @@ def r_traversal(repo, rep, R='R7.4'):
 
         def on_call(st, t, node):
             f = t[1]
-            if (f[0] == 'func' and f[1] == fn.name) or f == N(fn.name) or (f[0] == 'attr' and f[2] == fn.name):
+            if (f[0] == 'func' and f[2] == id(fn)) or f == N(fn.name) or (f[0] == 'attr' and f[2] == fn.name):
                 args = [a for a in t[2] if a != N('self')]
                 target = None
                 for a in args:
